@@ -521,11 +521,18 @@ def api_oracle(trace):
     now = 0
     prev = None
     last_assigned = None
+    imported = set()     # ids that came in by import so far: a wrong answer about one of them speaks about C20 too
+
+    def c20(props, *frames_or_ids):
+        ids = {(x.get("id") if isinstance(x, dict) else x) for x in frames_or_ids if x is not None}
+        return props + ["C20"] if ids & imported else props
     for i, e in enumerate(trace):
         op, obs = e["op"], e["obs"]
         k = op["op"]
         if k in ("open", "clock") and op.get("now") is not None:
             now = op["now"]
+        if i and trace[i - 1]["op"].get("op") == "import" and isinstance(trace[i - 1]["op"].get("frame"), dict):
+            imported.add(trace[i - 1]["op"]["frame"].get("id"))
         if "crash" in obs:
             fails.append({"i": i, "why": "crash", "props": ["C12", "C01"]}); break
         pre = prev
@@ -573,11 +580,12 @@ def api_oracle(trace):
                     props.append("C09")
                 if op.get("ctx") is not None and any(f not in got for f in want) and lim is None:
                     props.append("C05")
+                props = c20(props, *[f for f in want if f not in got], *[f for f in got if f not in want])
                 fails.append({"i": i, "why": "read differs from the live history", "want": want, "got": got, "props": props})
         if k == "get" and "ok" in obs:
             want = next((f for f in frames if f["id"] == op["id"]), None)
             if want != canon_frame(obs["ok"]):
-                fails.append({"i": i, "why": "get differs from the stored frame", "props": ["C01", "C05"]})
+                fails.append({"i": i, "why": "get differs from the stored frame", "props": c20(["C01", "C05"], op["id"])})
         if k == "head" and "ok" in obs and "00" not in [op["topic"][j:j+2] for j in range(0, len(op["topic"]), 2)]:
             want = spec_head(frames, op["topic"], op["ctx"])
             got = canon_frame(obs["ok"])
@@ -585,7 +593,8 @@ def api_oracle(trace):
                 props = ["C05"]
                 if got is not None and got["ctx"] != op["ctx"]:
                     props.append("C06")
-                fails.append({"i": i, "why": "head is not the newest frame of exactly that topic", "want": want, "got": got, "props": props})
+                fails.append({"i": i, "why": "head is not the newest frame of exactly that topic", "want": want, "got": got,
+                              "props": c20(props, want, got)})
     return fails
 
 
